@@ -922,9 +922,11 @@ RX_LEXER_FRAMES = [('{% a "', ""), ('{% a "', '" %}'), ('{% a "', " %}"), ("{% a
 
 
 def rx_families(thorough):
-    n = 3 if thorough else 2
     fams = []
     for target, alpha, frames in (("classifier", RX_CLASSIFIER_ALPHA, RX_CLASSIFIER_FRAMES), ("lexer", RX_LEXER_ALPHA, RX_LEXER_FRAMES)):
+        # 3-token units only for the classifier (a single regex call); the lexer seam runs the whole (Python-level, itself up to
+        # quadratic) template parser per call, which makes 3-token units at k = 2048 cost minutes per family
+        n = 3 if (thorough and target == "classifier") else 2
         units = ["".join(t) for m in range(1, n + 1) for t in product(alpha, repeat=m)]
         if target == "classifier":
             units += ["{{}}", "{{ a }}", "{%%}", "{##}", "{{}}{%%}"]
@@ -1208,7 +1210,7 @@ def run(ctx):
     ev.add_part("regex_time", states=ragg.extra["rx:states"], transitions=ragg.extra["rx:transitions"], validated=ragg.extra["rx:transitions"],
                 nontrivial=max(ragg.extra["rx:nontrivial"], 1),
                 bound={"k": list(RKS), "ratio_limit_both_last_doublings": RX_RATIO, "min_cpu_s": RX_MIN_S, "targets": ["is_dynamic_expression", "parse_template"],
-                       "unit_tokens": 3 if thorough else 2, "families": len(rx_families(thorough))},
+                       "unit_tokens": {"classifier": 3 if thorough else 2, "lexer": 2}, "families": len(rx_families(thorough))},
                 samples=ragg.samples[:3] or None)
     ev.assumptions = [
         "hang = no answer within 2 s (20 s under tracing) of which >= half is CPU time of the worker (a starved worker on an overloaded "
